@@ -1,4 +1,5 @@
 import Whv.Lemmas.Processor
+import Whv.Gen.Proc
 /-!
 # C14 — pending attestations are retried, then expired, on a bounded schedule
 
@@ -443,6 +444,32 @@ theorem retry_budget_invariant (g : GSet) (db : List (VaaId × Bytes)) :
       obtain ⟨a', b', c'⟩ := ih st1 st' a h
       exact ⟨a', by omega, by rw [c', c]⟩
     · cases h
+
+/-- The thresholds of the model are the ones in cleanup.go / processor.go (re-extracted on every run), and they are the
+statement's: retries about every five minutes, unobserved entries about five minutes, completed entries about an hour, a
+14 400-retry budget (120 hours), a 30-second settlement time and a 30-second cleanup ticker; the four `case` conditions of the
+switch are textually the ones modelled. -/
+theorem thresholds_as_modelled :
+    (Whv.Gen.Proc.settlementTime : Int) = settlementTime ∧ (Whv.Gen.Proc.retryTime : Int) = retryTime ∧
+    Whv.Gen.Proc.maxRetries = maxRetries ∧ Whv.Gen.Proc.nilRetries = 10 ∧
+    retryTime = 5 * 60 * 1000000000 ∧ fiveMinutes = 5 * 60 * 1000000000 ∧ oneHour = 60 * 60 * 1000000000 ∧
+    Whv.Gen.Proc.cleanupTickNs = 30 * 1000000000 ∧
+    Whv.Gen.Proc.hourRule = 1 ∧ Whv.Gen.Proc.fiveMinRule = 1 ∧ Whv.Gen.Proc.settleRule = 1 ∧ Whv.Gen.Proc.lateRule = 1 := by
+  decide
+
+/-- With the 30-second ticker a due retry is at most 30 s late, so consecutive retries are between 5 min and 5 min 30 s apart
+(`retries_spaced` + `retry_due_after_period` with `T` = the extracted tick). -/
+theorem retry_period_bounds (t : Int) :
+    (∀ now, now - t < retryTime → retryDue now (some t) = false) ∧
+    (∀ now, now - t ≥ retryTime → retryDue now (some t) = true) ∧
+    retryTime + (Whv.Gen.Proc.cleanupTickNs : Int) = (5 * 60 + 30) * 1000000000 := by
+  refine ⟨?_, ?_, by decide⟩
+  · intro now h
+    unfold retryDue
+    simp only [decide_eq_false_iff_not]
+    omega
+  · intro now h
+    exact retry_due_after_period t now h
 
 /-- Non-vacuity: a concrete pending entry, five minutes old, never retried — retried by the tick. -/
 def sampleVaa : Vaa :=
